@@ -345,7 +345,7 @@ func (e *c16env) step() {
 	case kind == 10: // read attempts without proof of key ownership
 		victim := u[r.Intn(len(u)-1)]
 		e.rig.Flash.RemoveAddress(victim.Addr)
-		variant := r.Intn(6)
+		variant := r.Intn(8)
 		var req *protobufcompiled.SignedHash
 		rpc := []string{"Waiting", "TransactionsInDAG", "Balance"}[r.Intn(3)]
 		blob, _ := e.rig.Notary.Data(e.ctx, &protobufcompiled.Address{Public: victim.Addr})
@@ -369,6 +369,19 @@ func (e *c16env) step() {
 			junk := make([]byte, 128)
 			r.Read(junk)
 			req = svc.Sign(victim, junk)
+			if rpc == "Balance" {
+				return
+			}
+		case 6: // the victim's own (replayable, never expiring) balance proof - its signature over its address - sent to
+			// an endpoint that demands a signed challenge
+			if rpc == "Balance" {
+				rpc = "TransactionsInDAG"
+			}
+			req = svc.Sign(victim, []byte(victim.Addr))
+		case 7: // a challenge signed for one read endpoint is single use for... no: the victim's signature over the
+			// challenge issued to ANOTHER address (cross-wired)
+			own, _ := e.rig.Notary.Data(e.ctx, &protobufcompiled.Address{Public: dishonest.Addr})
+			req = svc.Sign(victim, own.Blob)
 			if rpc == "Balance" {
 				return
 			}
